@@ -12,6 +12,8 @@ CONSTANTS
   Ress <- R1
   ArgC <- Args3
   AttC <- AttSets
+  SysSets <- SysNone
+  LoadVals <- NoVals
   DTMode = "full"
 CONSTRAINT GenBound
 CHECK_DEADLOCK FALSE
